@@ -159,14 +159,27 @@ def coincident_crossings(path, q):
     return False
 
 
-def check_point(spec, q, rng_seed=0):
+def shallow_edge(segs, q):
+    """K15 classifier: a line edge that is not horizontal, whose slope is below 2e-7 in absolute value, straddles the query level (the
+    line/line code treats it as parallel to the ray: C05's K7)"""
+    y = q[1]
+    for pts in segs:
+        if len(pts) != 2:
+            continue
+        (ax, ay), (bx, by) = pts
+        if ay != by and bx != ax and abs((by - ay) / (bx - ax)) < 2e-7 and min(ay, by) < y < max(ay, by):
+            return True
+    return False
+
+
+def check_point(spec, q, rng_seed=0, near_skip=True):
     import random
     rng = random.Random(rng_seed)
     path = cc.build(spec)
     segs = seg_list(path)
     ext = extent_of(path)
     fine = cc.fine_polyline(path, step=max(0.25, ext / 2000))
-    if dist_to_path(path, q, fine) <= 1e-5 * ext + max(0.3, ext / 1500) * 0.01:
+    if near_skip and dist_to_path(path, q, fine) <= 1e-5 * ext + max(0.3, ext / 1500) * 0.01:
         return "skip:near"
     n = exact_parity(segs, q, rng)
     if n is None:
@@ -194,7 +207,51 @@ def check_point(spec, q, rng_seed=0):
             return "K6"
         if inflection_cluster(path, segs, q):
             return "K13"
+        if shallow_edge(segs, q):
+            return "K15"
         return msg
+    return None
+
+
+def check_in_place_shift(spec, seed):
+    """the inside test describes the path as it is NOW: ask once, move every control point of the live segments by a vector longer than the
+    path is wide (no new representation is installed), ask at points inside and on every side of the moved path: the answers must be
+    those of a freshly built path with the control points read back"""
+    import random
+    rng = random.Random(seed)
+    path = cc.build(spec)
+    b = path.bounds()
+    w, h = b.right - b.left, b.top - b.bottom
+    path.pointIsInside(Point((b.left + b.right) / 2, (b.bottom + b.top) / 2))
+    path.windingNumberOfPoint(Point(b.right + 0.3 * w + 20, (b.bottom + b.top) / 2))
+    grow = rng.random() < 0.6
+    dx = rng.choice([-1, 1]) * (w + rng.uniform(30, 80))
+    dy = rng.choice([0.0, 0.0, rng.choice([-1, 1]) * (h + 40)])
+    cx, cy0 = (b.left + b.right) / 2, (b.bottom + b.top) / 2
+    f = rng.choice([2.5, 3.0, 4.0])
+    done = set()
+    for s in path.asSegments():
+        for q in s.points:
+            if id(q) not in done:
+                done.add(id(q))
+                if grow:
+                    # the path grows about its middle: where its sides used to be is now well inside it
+                    q.x = cx + f * (q.x - cx) + (20.0 if q.x >= cx else -20.0)
+                    q.y = cy0 + f * (q.y - cy0)
+                else:
+                    q.x += dx
+                    q.y += dy
+    now = [[(q.x, q.y) for q in s.points] for s in path.asSegments()]
+    fresh = cc.build({"kind": "contour", "segs": now})
+    nb = fresh.bounds()
+    cy = (nb.bottom + nb.top) / 2 + 0.137 * h
+    qs = [((nb.left + nb.right) / 2 + 0.11 * w, cy), (nb.left - 0.4 * w - 25, cy), (nb.right + 0.4 * w + 25, cy),
+          (nb.left - 15, cy), (nb.right + 15, cy), ((nb.left + nb.right) / 2, nb.top + 20)]
+    for q in qs:
+        a = (path.pointIsInside(Point(*q)), path.windingNumberOfPoint(Point(*q)))
+        f = (fresh.pointIsInside(Point(*q)), fresh.windingNumberOfPoint(Point(*q)))
+        if a != f:
+            return "after changing the path's control points in place (moved by (%r, %r) or grown about its middle), the inside test / winding number at %r is %r; a freshly built path with the same control points answers %r (stale state)" % (dx, dy, q, a, f)
     return None
 
 
@@ -242,6 +299,12 @@ def rand_path_spec(rng, i):
             pts = [(float(rng.randint(-100, 100)), float(rng.randint(-100, 100))) for _ in range(n)]
         pts = [p for k, p in enumerate(pts) if p != pts[k - 1]]
         return {"kind": "contour", "segs": [[pts[k], pts[(k + 1) % len(pts)]] for k in range(len(pts))]}
+    if r == 2 and i % 32 == 26:
+        # K15 family: a sliver triangle one of whose edges rises by less than 2e-7 per unit
+        L = float(rng.choice([1e7, 4e6, 2e7]))
+        hgt = float(rng.choice([1.0, 0.5, 2.0]))
+        x0, y0 = float(rng.randint(-50, 50)), float(rng.randint(-50, 50))
+        return {"kind": "contour", "segs": [[(x0, y0), (x0 + L, y0 + hgt)], [(x0 + L, y0 + hgt), (x0, y0 + hgt)], [(x0, y0 + hgt), (x0, y0)]]}
     if r == 6 and i % 16 == 14:
         return wrapped_spec(rng)
     if r == 6 and i % 16 == 6:
@@ -434,6 +497,12 @@ def search(ctx, budget):
     for i in range(n):
         spec = rand_path_spec(rng, i)
         path = cc.build(spec)
+        if i % 8 in (0, 5):
+            seed = rng.randrange(1 << 30)
+            msg = check_in_place_shift(spec, seed)
+            evals += 1
+            if msg:
+                viol.append({"what": msg, "kind": "shift", "input": {"spec": spec, "seed": seed}})
         for j in range(6):
             q = rand_query(rng, path, 5 + j % 2 if j >= 4 else rng.randrange(10))     # the last two: left and right of the bounding box
             if spec.get("levels") and j < 4:
@@ -462,10 +531,12 @@ def search(ctx, budget):
 
 
 def classify(v, entry):
-    return entry["id"] in ("K1", "K6", "K13") and v.get("what") == entry["id"]
+    return entry["id"] in ("K1", "K6", "K13", "K15") and v.get("what") == entry["id"]
 
 
 def replay(v):
     inp = v["input"]
-    r = check_point(inp["spec"], tuple(inp["q"]), inp.get("seed", 0))
+    if v.get("kind") == "shift" or "q" not in inp:
+        return check_in_place_shift(inp["spec"], inp["seed"]) is not None
+    r = check_point(inp["spec"], tuple(inp["q"]), inp.get("seed", 0), near_skip=not inp.get("raw"))
     return r is not None and not r.startswith("skip:")
